@@ -17,4 +17,4 @@ Definition starttls_negotiate_writes : list bytes := [].
 (* ---- negotiator.go negotiator: state captured by the returned closure ---- *)
 Definition negotiator_captured : list bytes := [hex "66" (* f *); hex "636667" (* cfg *)].
 (* captured variables that the closure assigns to (directly or through a selector, index or dereference) *)
-Definition negotiator_writes : list bytes := [hex "636667" (* cfg *); hex "636667" (* cfg *)].
+Definition negotiator_writes : list bytes := [hex "636667" (* cfg *)].
